@@ -46,7 +46,7 @@ ASSUMPTIONS = [
     "date microseconds are restricted to values llbase's text date parser does not truncate (int(float('0.x')*1e6), "
     "third-party code)",
 ]
-MUST_REACH = {"calls_from_concurrent_threads": 1000, "msg_roundtrips_custom_template": 300, "msg_dict_roundtrips": 400, "msg_xml_roundtrips": 400, "templates_covered": 481, "tree_roundtrips": 2000,
+MUST_REACH = {"msg_roundtrips_after_template_reload": 50, "calls_from_concurrent_threads": 1000, "msg_roundtrips_custom_template": 300, "msg_dict_roundtrips": 400, "msg_xml_roundtrips": 400, "templates_covered": 481, "tree_roundtrips": 2000,
               "codec_binary": 300, "codec_binary_noheader": 300, "codec_zipped": 300, "codec_notation": 300, "codec_xml": 300,
               "dates_checked": 100, "aware_dates_checked": 20, "uris_checked": 50, "newline_strings_checked": 50,
               "quaternion_messages": 5, "tz_covered": 3, "u64_messages": 10, "ip_messages": 5}
@@ -444,9 +444,57 @@ def threads_phase(ctx, rng):
     run_concurrently(ctx, "llsd", jobs, reps=ctx.pick(3, 20))
 
 
+def template_reload(ctx, rng):
+    """A long-lived serializer whose template dictionary is reloaded in place with a revised template (what the library does for
+    its stock dictionary when the template file changes): from then on it goes by the revised layout, like a serializer built
+    on it from scratch."""
+    import io
+    from ..custom_template import custom_template_text
+    from hippolyzer.lib.base.message.template_parser import MessageTemplateParser
+    ser = LLSDMessageSerializer(message_template=io.StringIO(custom_template_text(0)))
+    deser = UDPMessageDeserializer(settings=_es)
+    deser.template_dict = ser.template_dict
+    CONFIGS["reloaded"] = (ser, deser)
+    names = [t.name for t in rng.sample(list(ser.template_dict), 60)]
+
+    def some_messages(tag):
+        for name in names:
+            tmpl = ser.template_dict[name]
+            for _ in range(2):
+                spec = gen_msg.gen_spec(rng, tmpl, {"xml_safe": True, "flags": 0, "p_extra": 0, "max_var_len": 100, "small_block": 6})
+                if finite_spec(spec) and _xml_ok(spec):
+                    spec["acks"] = []
+                    check_message(ctx, tmpl, spec, config="reloaded")
+                    ctx.count("msg_roundtrips_" + tag)
+    some_messages("before_template_reload")
+    ser.template_dict.load_templates(MessageTemplateParser(io.StringIO(custom_template_text(1))).message_templates)
+    fresh = LLSDMessageSerializer(message_template=io.StringIO(custom_template_text(1)))
+    some_messages("after_template_reload")
+    # and the same in-memory form as a serializer that never knew the first revision
+    for name in names:
+        tmpl = ser.template_dict[name]
+        spec = gen_msg.gen_spec(rng, tmpl, {"xml_safe": True, "flags": 0, "p_extra": 0, "max_var_len": 60, "small_block": 4})
+        if not (finite_spec(spec) and _xml_ok(spec)):
+            continue
+        try:
+            msg = gen_msg.build_message(spec)
+            a = repr(tagged(ser.serialize(msg, as_dict=True)))
+            b = repr(tagged(fresh.serialize(msg, as_dict=True)))
+        except Exception as e:
+            ctx.violation("msg-serialize-raises:after-template-reload", "converting a message raised after the serializer's template "
+                          "dictionary was reloaded", {"spec": spec, "exc": repr(e)[:200]})
+            continue
+        if a != b:
+            ctx.violation("msg-llsd-form-stale-after-template-reload", "after its template dictionary was reloaded a serializer "
+                          "converts a message differently from a serializer built on the revised template", {"spec": spec, "form": a[:300], "fresh": b[:300]})
+    del CONFIGS["reloaded"]
+
+
 def run(ctx):
     if ctx.shard == 0:
         threads_phase(ctx, ctx.rng)
+    if ctx.shard == 1 % max(ctx.nshards, 1):
+        template_reload(ctx, ctx.rng)
     tz = TZS[ctx.shard % len(TZS)]
     os.environ["TZ"] = tz
     time.tzset()
